@@ -60,6 +60,8 @@ TRUSTED_EXTRA = ["MolecularSimilarity.test_same enters the model as an oracle (i
 def regenerate(ctx: Ctx) -> None:
     ctx.gen_status.update(ktn_cfg.regenerate(["add_minimum", "add_ts", "__init__", "reset_network"]))
     ctx.gen_status.update(sim_tr.regenerate())
+    from translate import transcripts as _tr
+    ctx.gen_status.update(_tr.constructor_wiring(['StandardSimilarity', 'MolecularSimilarity']))
 
 
 # ----------------------------------------------------------------------------- shared machinery
